@@ -32,6 +32,7 @@ class Ctx:
         self.assumptions = []
         self.samples = []
         self.replay = replay
+        self.replay_tag = ""   # set in forked workers so that replay file names stay unique
         self.checker_cmds = []
         kf = VERIF / "known_findings.json"
         self.known = json.loads(kf.read_text()) if kf.exists() else {"findings": []}
@@ -165,7 +166,7 @@ class Ctx:
                     print(f"KNOWN-FINDING: property={self.pid} {kf.get('what', key)}", flush=True)
                 return
         n = len(self.violations)
-        path = REPLAYS / f"{self.pid}_{self.tier}_{n}.json"
+        path = REPLAYS / f"{self.pid}_{self.tier}_{self.replay_tag}{n}.json"
         rec = {
             "property": self.pid, "kind": kind, "name": name, "detail": detail, "seed": self.seed,
             "tier": self.tier, "key": key,
@@ -175,6 +176,74 @@ class Ctx:
         self.violations.append(rec)
         tail = "" if kind == "failing-input" else " no-failing-input-found"
         print(f"VIOLATION property={self.pid} replay={path}{tail}", flush=True)
+
+    def run_groups(self, groups):
+        """Run independent groups of parts in forked worker processes (each part is `(label, callable(ctx) -> int)`);
+        every worker runs its group sequentially on its own copy of this context; the results (violations, known hits,
+        obligations, coverage entries) are merged back.  Returns the sum of the parts' evaluation counts.
+        VIOLATION / KNOWN-FINDING lines are printed by the workers themselves."""
+        import multiprocessing as mp
+        mpc = mp.get_context("fork")
+        procs = []
+        for gi, group in enumerate(groups):
+            parent, child = mpc.Pipe(duplex=False)
+
+            def work(conn=child, group=group, gi=gi):
+                base = dict(v=len(self.violations), k=len(self.known_hits), o=len(self.obligation_names), d=self.discharged,
+                            c=len(self.coq_files), t=len(self.trusted), s=len(self.samples), a=len(self.assumptions_out),
+                            m=len(self.checker_cmds), corr=set(self.corr), extra=dict(self.extra))
+                self.replay_tag = f"g{gi}_"
+                total = 0
+                try:
+                    for label, fn in group:
+                        t1 = time.time()
+                        total += int(fn(self) or 0)
+                        self.log(f"{label} {time.time() - t1:.0f}s")
+                except Exception as e:
+                    self.violation("correspondence-broken", f"harness exception in {group[0][0]}…: {type(e).__name__}: {e}",
+                                   {"traceback": traceback.format_exc()[-4000:]})
+                out = dict(total=total, violations=self.violations[base["v"]:], known=self.known_hits[base["k"]:],
+                           obligation_names=self.obligation_names[base["o"]:], discharged=self.discharged - base["d"],
+                           coq_files=self.coq_files[base["c"]:], trusted=self.trusted[base["t"]:], samples=self.samples[base["s"]:],
+                           assumptions_out=self.assumptions_out[base["a"]:], checker_cmds=self.checker_cmds[base["m"]:],
+                           corr={k: v for k, v in self.corr.items() if k not in base["corr"] or k in ("evaluations",)},
+                           extra={k: v for k, v in self.extra.items() if base["extra"].get(k) != v})
+                conn.send(json.loads(json.dumps(out, default=str)))
+                conn.close()
+                sys.stdout.flush()
+                os._exit(0)
+            pr = mpc.Process(target=work)
+            pr.start()
+            child.close()
+            procs.append((pr, parent, group))
+        total = 0
+        for pr, parent, group in procs:
+            try:
+                out = parent.recv()
+            except EOFError:
+                out = None
+            pr.join()
+            if out is None:
+                self.violation("correspondence-broken", f"worker for parts {[g[0] for g in group]} died without a result", {})
+                continue
+            total += out["total"]
+            self.violations += out["violations"]
+            self.known_hits += [k for k in out["known"] if k not in self.known_hits]
+            self.obligation_names += out["obligation_names"]
+            self.discharged += out["discharged"]
+            self.coq_files += out["coq_files"]
+            self.trusted += [t for t in out["trusted"] if t not in self.trusted]
+            self.samples += out["samples"]
+            self.assumptions_out += out["assumptions_out"]
+            self.checker_cmds += out["checker_cmds"]
+            ev = out["corr"].pop("evaluations", None)
+            self.corr.update(out["corr"])
+            for k, v in out["extra"].items():
+                if isinstance(v, list) and isinstance(self.extra.get(k), list):
+                    self.extra[k] = self.extra[k] + [x for x in v if x not in self.extra[k]]
+                else:
+                    self.extra[k] = v
+        return total
 
     def finish(self):
         wall = time.time() - self.t0
